@@ -6,6 +6,7 @@ import (
 	"math"
 	"strings"
 
+	"xv/adoc"
 	"xv/refxp"
 	"xv/run"
 )
@@ -95,7 +96,7 @@ func C06(c *run.Check) {
 		bin = append(bin, mustParse([]string{"$a " + op + " $b"})...)
 	}
 	un := mustParse([]string{"-$a", "floor($a)", "ceiling($a)", "round($a)", "--$a", "number($a)", "$a + 0", "0 - $a"})
-	c.Rule = fmt.Sprintf("%d boundary doubles (+-0, +-0.5, ties, 0.49999999999999994, 2^31, 2^53+-1, 2^63, 2^64, 1e21, max, min subnormal, NaN, +-Inf): ALL ordered pairs x {+,-,*,div,mod} and all values x {unary -, floor, ceiling, round} with operands as Number variables and as literals where expressible; sum()/count() over every node-set of size <=3 from a 10-text alphabet (fractions, negatives, padded, non-numeric); sum() over every sequence of <=4 distinct nodes from 9 texts whose sum depends on rounding (0.1, 0.2, 0.3, 0.7), cancellation (1, +-1e16) and overflow (310-digit numbers = +-Infinity), accepted if it is the IEEE sum in some order of addition; every arithmetic operator and rounding function with node-set operands in EVERY storage order (all permutations of every subset of size 2-3) and with reverse-axis paths as operands; results compared by bit pattern (NaN==NaN; sign of zero ignored for round) with Go float64 / math.Mod; non-trivial = distinct (operation, result)", len(c06Numbers))
+	c.Rule = fmt.Sprintf("%d boundary doubles (+-0, +-0.5, ties, 0.49999999999999994, 2^31, 2^53+-1, 2^63, 2^64, 1e21, max, min subnormal, NaN, +-Inf): ALL ordered pairs x {+,-,*,div,mod} and all values x {unary -, floor, ceiling, round} with operands as Number variables and as literals where expressible; sum()/count() over every node-set of size <=3 from a 10-text alphabet (fractions, negatives, padded, non-numeric); sum() over every sequence of <=4 distinct nodes from 9 texts whose sum depends on rounding (0.1, 0.2, 0.3, 0.7), cancellation (1, +-1e16) and overflow (310-digit numbers = +-Infinity), accepted if it is the IEEE sum in some order of addition; every arithmetic operator and rounding function with node-set operands in EVERY storage order (all permutations of every subset of size 2-3) and with reverse-axis paths as operands; sum() over elements with MIXED content (text split by comments, processing instructions and child elements; 26 paths and every 1-2 element operand); results compared by bit pattern (NaN==NaN; sign of zero ignored for round) with Go float64 / math.Mod; non-trivial = distinct (operation, result)", len(c06Numbers))
 	r := &vrunner{c: c, kind: "C06", judge: c06Judge}
 	if run.Open("C06-round-negative-tie") {
 		r.known = func(e refExpr, vals []VarSpec, got, want Outcome) string {
@@ -268,6 +269,51 @@ func C06(c *run.Check) {
 				return c06WideJudge(e, []VarSpec{setVar("x", sel...)}, got, want)
 			}}
 			rw3.one(ww[0], "/", e, nil)
+		}
+	}
+	// mixed content: the number of an element is the number of its WHOLE string-value
+	// (all text descendants in document order), not of its first text child
+	{
+		dm := adoc.NewDoc()
+		rt := adoc.E("r")
+		dm.Root.Add(rt)
+		rt.Add(adoc.E("e", adoc.T("1"), adoc.C("c"), adoc.T("2")))
+		rt.Add(adoc.E("e", adoc.T("3"), adoc.E("k", adoc.T("4"))))
+		rt.Add(adoc.E("e", adoc.T("5"), adoc.P("t", "v"), adoc.T(".5")))
+		rt.Add(adoc.E("e", adoc.E("k", adoc.T("7")), adoc.T("8")))
+		rt.Add(adoc.E("e", adoc.T("1"), adoc.E("k", adoc.T("x"))))
+		rt.Add(adoc.E("e", adoc.T(" 2 "), adoc.E("k")))
+		rt.Add(adoc.E("e", adoc.C("9"), adoc.T("6")))
+		rt.Add(adoc.E("e", adoc.T("-"), adoc.E("k", adoc.T("1"))))
+		rt.Add(adoc.E("e", adoc.A("x", "3"), adoc.T("4"), adoc.E("k", adoc.E("k", adoc.T("0.25")))))
+		dm.Finish()
+		wm := newVWorker(dm)
+		for _, e := range mustParse([]string{"sum(/r/e[1])", "sum(/r/e[position() <= 4])", "sum(/r/e[2] | /r/e[3])", "sum(/r/e[6])", "sum(/r/e[7] | /r/e[8])", "sum(/r/e[5])", "sum(/r/e/k)", "sum(/r/e/@x | /r/e[1])",
+			"sum(/r/e[9])", "sum(/r/e[9]/k)", "sum(/r/e[position() != 5])", "sum(/r/e)", "sum(/r)", "sum(/)", "sum(//k/..)", "sum(/r/e[1]/text())", "sum(/r/e/comment())", "sum(/r/e/processing-instruction())", "sum(//k[. = 4]/..)",
+			"sum(/r/e[1]) = number(/r/e[1])", "sum(/r/e[4]) + sum(/r/e[7])", "sum(//text()[. = 3]/..)", "sum(/r/e[k][position() < 3])", "sum(/r/e[not(k)])", "sum(/r/e[3]/node())", "count(/r/e[. > 10])"}) {
+			c.Evaluations.Add(1)
+			if r.one(wm, "/", e, nil) {
+				c.Distinct("mixed " + e.Text)
+			}
+		}
+		var paths []string
+		for i := 0; i < 9; i++ {
+			paths = append(paths, fmt.Sprintf("/0/%d", i))
+		}
+		sx := mustParse([]string{"sum($x)", "sum($x) + 1", "sum($x | /r/e[9]/k)"})
+		for i := range paths {
+			for j := i; j < len(paths); j++ {
+				v := setVar("x", paths[i], paths[j])
+				if i == j {
+					v = setVar("x", paths[i])
+				}
+				for _, e := range sx {
+					c.Evaluations.Add(1)
+					if r.one(wm, "/", e, []VarSpec{v}) {
+						c.Distinct("mixed " + e.Text + fmt.Sprint(v.Nodes))
+					}
+				}
+			}
 		}
 	}
 	// literals and path spellings
